@@ -177,6 +177,10 @@ func c20Budget(c *Ctx, p *Prog, copies map[string]bool) {
 		if o.OK {
 			r.Ok("R20.1", key, p.Pos(o.Pos), "%s", o.Msg)
 		} else {
+			if k.kind == "narrowing" {
+				r.Bad("R20.1", key, p.Pos(o.Pos), "%s: for some duration bits of the value are cut off before it is formatted (the text is well-formed but is another duration)", o.Msg)
+				continue
+			}
 			r.Bad("R20.1", key, p.Pos(o.Pos), "%s: for some duration the right-to-left write runs out of the fixed buffer (index out of range panic)", o.Msg)
 		}
 	}
